@@ -8,6 +8,7 @@ import (
 	"fmt"
 	"os"
 	"sort"
+	"strconv"
 	"strings"
 	"testing"
 	"time"
@@ -215,6 +216,9 @@ func execute(c Case) *pt.Failure {
 		}
 		switch v := cur.(type) {
 		case string:
+			if _, err := strconv.ParseFloat(strings.TrimSpace(v), 64); err == nil && v != "" && len(v) < 10 {
+				return "0" + v // another text for the same number ('123' → '0123')
+			}
 			if f, ok := flip([]byte(v)); ok {
 				return string(f)
 			}
@@ -236,7 +240,7 @@ func execute(c Case) *pt.Failure {
 	var ferr error
 	switch c.Foreign {
 	case "none":
-	case "change-written", "change-unwritten", "change-written-subtly":
+	case "change-written", "change-unwritten", "change-written-subtly", "null-written":
 		if target.after == nil {
 			return nil // row no longer exists: nothing to change
 		}
@@ -248,6 +252,9 @@ func execute(c Case) *pt.Failure {
 		nv := bump(col, target.after[col.Name])
 		if c.Foreign == "change-written-subtly" {
 			nv = subtle(col, target.after[col.Name])
+		}
+		if c.Foreign == "null-written" && col.Nullable && target.after[col.Name] != nil {
+			nv = nil // the foreign writer clears the value and touches nothing else
 		}
 		ferr = exec("UPDATE "+tname+" SET "+gen.Q(col.Name)+" = ? WHERE "+w, append([]interface{}{nv}, a...)...)
 	case "delete-row":
@@ -499,7 +506,7 @@ func min(a, b int) int {
 	return b
 }
 
-var foreignKinds = []string{"none", "change-written", "change-written", "change-written-subtly", "change-written-subtly", "change-unwritten", "delete-row", "reinsert-deleted", "reinsert-identical", "back-to-before", "change-some"}
+var foreignKinds = []string{"none", "change-written", "change-written", "change-written-subtly", "change-written-subtly", "null-written", "change-unwritten", "delete-row", "reinsert-deleted", "reinsert-identical", "back-to-before", "change-some"}
 
 func stmtOptions() gen.StmtOptions {
 	o := gen.StmtOptions{ForceParamStrings: true, NoKeyAssignment: true}
@@ -547,11 +554,11 @@ func TestPropForeignWrite(t *testing.T) {
 // ---- a foreign write inside the window between the dirty check and the compensation ----------
 
 type windowCase struct {
-	Kind      string `json:"kind"`       // window
-	Stmt      string `json:"stmt"`       // update | delete
-	Rows      []int  `json:"rows"`       // ids written by the branch
-	Target    int    `json:"target"`     // id the foreign writer changes
-	OnlyCols  bool   `json:"only_update_columns"`
+	Kind     string `json:"kind"`   // window
+	Stmt     string `json:"stmt"`   // update | delete
+	Rows     []int  `json:"rows"`   // ids written by the branch
+	Target   int    `json:"target"` // id the foreign writer changes
+	OnlyCols bool   `json:"only_update_columns"`
 }
 
 // runWindow pauses the rollback at its first compensation statement and lets a foreign writer try to
